@@ -53,6 +53,8 @@ def run_case(case):
         return run_api(case, rng)
     trig = case["triggers"]
     n = len(trig)
+    import collections
+    mon_pre_counts = collections.Counter()
     from vmon.simkit import omit
     # signal names are labels, not identities: sources created without a path, or as the equally named port of
     # several instances of one peripheral class, all carry the same signal names
@@ -60,6 +62,14 @@ def run_case(case):
     srcs = [event.Source(**omit(rng, "event.Source", trigger=t),
                          **({"path": (f"s{i}",)} if naming == "distinct" else {} if naming == "pathless" else {"path": ("irq",)}))
             for i, t in enumerate(trig)]
+    for k_, s_ in enumerate(srcs):
+        if rng.random() < 0.12:
+            # this source is itself the outgoing line of a lower node of an interrupt tree: it carries an event map of its
+            # own (set through the public setter); its trigger mode is its own all the same
+            sub_map = event.EventMap()
+            sub_map.add(event.Source(trigger=rng.choice(["level", "rise"]), path=(f"leaf{k_}",)))
+            s_.event_map = sub_map
+            mon_pre_counts["sources_that_carry_an_event_map_of_their_own"] += 1
     if rng.random() < 0.3:
         # a sizing pass first: the sources are added to a throw-away map that is dropped again before the real one is made
         # (the new map may well be allocated where the old one was)
@@ -76,6 +86,8 @@ def run_case(case):
         if s not in first:
             first.append(s)
     mon = Mon()
+    for k_, v_ in mon_pre_counts.items():
+        mon.count(k_, v_)
 
     def numbering():
         # dense, in order of first addition
